@@ -106,7 +106,18 @@ func genKeepAlive(t *rapid.T) kaCase {
 		off := D * 1000 * int64(rapid.IntRange(10, 100).Draw(t, "lastfrac")) / 100
 		add(gwgen.Adv(off))
 		elapsed += off
-		add(gwgen.SN(gwgen.Connect("cl", uint16(c.K), false, false)))
+		// the CONNECT which ends a sleep only signals "active again": its fields are ignored
+		// (doc/specification-interpretation.md), the keep-alive agreed with the broker stays K
+		sig := uint16(c.K)
+		switch rapid.IntRange(0, 5).Draw(t, "signal_duration") {
+		case 0:
+			sig = 0
+		case 1:
+			sig = uint16(min(10*c.K, 0xffff))
+		case 2:
+			sig = uint16((c.K + 1) / 2)
+		}
+		add(gwgen.SN(gwgen.Connect("cl", sig, false, rapid.Bool().Draw(t, "signal_clean"))))
 	}
 	// finish within the current obligations
 	add(gwgen.Adv(K / 2))
@@ -117,7 +128,7 @@ func genKeepAlive(t *rapid.T) kaCase {
 func TestC12(t *testing.T) {
 	vf.Check(t, vf.Prop[kaCase]{
 		ID: "C12", Name: "broker-keepalive-kept", Bubble: true,
-		Rule: "timed histories over 6-20 keep-alive periods (K in {1,2,5,10,30,256} s) in which the client meets its obligations: active phases in which it sends PINGREQ / PUBLISH / SUBSCRIBE at gaps of 10-100% of K; sleeps with D<K, D=K, D>K, D>>K; 0-4 wake-ups per sleep at 10-100% of D (a third exactly at D), sometimes re-announcing the sleep with the same or another duration (K, 2K, K/2); return to active by CONNECT within D. Non-trivial = a history containing a sleep; the D classes are reported as labels; distinct by script.",
+		Rule: "timed histories over 6-20 keep-alive periods (K in {1,2,5,10,30,256} s) in which the client meets its obligations: active phases in which it sends PINGREQ / PUBLISH / SUBSCRIBE at gaps of 10-100% of K; sleeps with D<K, D=K, D>K, D>>K; 0-4 wake-ups per sleep at 10-100% of D (a third exactly at D), sometimes re-announcing the sleep with the same or another duration (K, 2K, K/2); return to active by CONNECT within D (half of these CONNECTs repeat K in their Duration field, the others carry 0, 10K or K/2: the field is ignored for a sleeping client). Non-trivial = a history containing a sleep; the D classes are reported as labels; distinct by script.",
 		Assumptions: []string{"the oracle reads the virtual timestamps of everything written to the broker connection: from the MQTT CONNECT to the end of the history no gap may exceed 1.5 x K",
 			"after a wake-up's PINGRESP the client is asleep again and owes its next PINGREQ within the announced duration (doc/specification-interpretation.md)"},
 		Gen: genKeepAlive,
